@@ -510,3 +510,169 @@ def repaired_case(draw, **kw):
     if r < 6:
         return fixed
     return draw(tighten(fixed))
+
+
+# --------------------------------------------------------------------- parser options
+
+
+def _rerepresent(draw, tc, dtype):
+    """Re-encode the cells of a conforming column in another physical type that coerces back to `dtype`."""
+    cells = tc["cells"]
+    nn = [c for c in cells if c is not None]
+    mode = draw(st.integers(0, 9))
+    if dtype in ("int64", "int32", "Int64"):
+        if mode < 4:
+            return "object", [None if c is None else str(c) for c in cells]
+        if mode < 7 :
+            return "float64", [None if c is None else float(c) for c in cells]
+        if mode < 8 and all(c in (0, 1) for c in nn) and not any(c is None for c in cells):
+            return "bool", [bool(c) for c in cells]
+        return "int32" if dtype != "int32" and not any(c is None for c in cells) else tc["phys"], cells
+    if dtype in ("float64", "float32"):
+        if mode < 4 and all(c == int(c) for c in nn) and not any(c is None for c in cells):
+            return "int64", [int(c) for c in cells]
+        if mode < 7:
+            return "object", [None if c is None else str(c) for c in cells]
+        return ("float32" if dtype == "float64" else "float64"), cells
+    if dtype in ("str", "string"):
+        if mode < 5 and nn and all(isinstance(c, str) and c.lstrip("-").isdigit() for c in nn) and not any(c is None for c in cells):
+            return "int64", [int(c) for c in cells]
+        return ("string" if tc["phys"] == "object" else "object"), cells
+    if dtype == "bool":
+        if not any(c is None for c in cells):
+            return "int64", [int(c) for c in cells]
+    return tc["phys"], cells
+
+
+@st.composite
+def parser_case(draw, **kw):
+    """A conforming pair, de-conformed in ways the schema's parsing options repair (or fail to)."""
+    import copy
+
+    base = draw(case_strategy(allow_dup_labels=False, allow_frame_checks=False, **kw))
+    case = copy.deepcopy(repair(base))
+    spec, table = case["spec"], case["table"]
+    kind = spec.get("kind", "dataframe")
+    tcs = {c["name"]: c for c in table["columns"]}
+    opts = []
+    touched = set()
+    plain = [c for c in spec["columns"] if not c.get("regex") and c["name"] in tcs]
+    nops = draw(st.integers(1, 3))
+    for _attempt in range(nops + 5):
+        if len(opts) >= nops:
+            break
+        op = draw(st.sampled_from(["coerce", "coerce", "coerce-bad", "default", "add_missing", "filter", "drop", "index-coerce",
+                                   "schema-coerce"]))
+        if op in ("coerce", "coerce-bad", "schema-coerce") and plain:
+            c = draw(st.sampled_from(plain))
+            if c.get("dtype") in (None, "object") or c["name"] in touched:
+                continue
+            touched.add(c["name"])
+            tc = tcs[c["name"]]
+            phys, cells = _rerepresent(draw, tc, c["dtype"])
+            if op == "coerce-bad" and cells:
+                i = draw(st.integers(0, len(cells) - 1))
+                phys, cells = "object", [x if j != i else draw(st.sampled_from(["x", "1.5", "", "nan"])) for j, x in enumerate(
+                    [None if v is None else (v if isinstance(v, str) else str(v)) for v in cells])]
+            tc["phys"], tc["cells"] = phys, cells
+            if op == "schema-coerce" and kind == "dataframe":
+                spec["coerce"] = True
+            else:
+                c["coerce"] = True
+            opts.append(op)
+        elif op == "default" and plain:
+            c = draw(st.sampled_from(plain))
+            if c["name"] in touched:
+                continue
+            touched.add(c["name"])
+            tc = tcs[c["name"]]
+            nn = [v for v in tc["cells"] if v is not None]
+            if tc["phys"] in ("float64", "object", "datetime64[ns]", "Int64", "string") and nn and c.get("dtype") not in (None,):
+                d = draw(st.sampled_from(nn))
+                if tc["cells"]:
+                    i = draw(st.integers(0, len(tc["cells"]) - 1))
+                    tc["cells"] = [None if j == i else v for j, v in enumerate(tc["cells"])]
+                c["default"] = d
+                c["nullable"] = draw(st.booleans())
+                c["unique"] = False
+                opts.append(op)
+        elif op == "add_missing" and kind == "dataframe" and plain:
+            c = draw(st.sampled_from(plain))
+            tc = tcs[c["name"]]
+            nn = [v for v in tc["cells"] if v is not None]
+            r = draw(st.integers(0, 3))
+            if r == 0:
+                c["nullable"] = True
+                c["checks"] = []
+            elif r < 3 and nn:
+                c["default"] = draw(st.sampled_from(nn))
+                c["unique"] = False
+            c["required"] = True
+            table["columns"] = [t for t in table["columns"] if t["name"] != c["name"]]
+            tcs.pop(c["name"], None)
+            plain = [p for p in plain if p["name"] != c["name"]]
+            spec["add_missing_columns"] = True
+            if spec.get("unique"):
+                spec["unique"] = None
+            opts.append(op)
+        elif op == "filter" and kind == "dataframe":
+            spec["strict"] = "filter"
+            n = table_nrows_local(table)
+            extra = draw(st.sampled_from(["zz", "yy"]))
+            if extra not in [t["name"] for t in table["columns"]] and extra not in [c["name"] for c in spec["columns"]]:
+                table["columns"].insert(draw(st.integers(0, len(table["columns"]))),
+                                        {"name": extra, "phys": "int64", "cells": list(range(n))})
+            opts.append(op)
+        elif op == "drop" and not touched:
+            case2 = draw(tighten(case, ops=ROW_OPS))
+            spec, table = case2["spec"], case2["table"]
+            case = case2
+            tcs = {c["name"]: c for c in table["columns"]}
+            plain = [c for c in spec["columns"] if not c.get("regex") and c["name"] in tcs]
+            spec["drop_invalid_rows"] = True
+            _uniquify_index(table)
+            opts.append(op)
+        elif op == "index-coerce" and spec.get("index") and "multi" not in spec["index"] and table.get("index") \
+                and "multi" not in table["index"]:
+            ixs, ixt = spec["index"], table["index"]
+            if ixs.get("dtype") in ("int64", "float64") and not any(v is None for v in ixt["cells"]):
+                if ixs["dtype"] == "int64":
+                    ixt["phys"], ixt["cells"] = "object", [str(v) for v in ixt["cells"]]
+                else:
+                    if all(v == int(v) for v in ixt["cells"]):
+                        ixt["phys"], ixt["cells"] = "int64", [int(v) for v in ixt["cells"]]
+                ixs["coerce"] = True
+                opts.append(op)
+    case = {"spec": spec, "table": table, "parser_ops": opts,
+            "lazy": draw(st.booleans()) or bool(spec.get("drop_invalid_rows")),
+            "inplace": draw(st.integers(0, 4)) == 0}
+    return case
+
+
+def table_nrows_local(table):
+    from .spec import table_nrows
+
+    return table_nrows(table)
+
+
+def _uniquify_index(table):
+    """drop_invalid_rows is documented for unique indexes only: rewrite duplicated / null labels."""
+    ix = table.get("index")
+    if ix is None:
+        return
+    levels = ix["multi"] if "multi" in ix else [ix]
+    n = len(levels[0]["cells"])
+    tuples = list(zip(*[l["cells"] for l in levels]))
+    if len(set(map(repr, tuples))) == len(tuples) and not any(c is None for t in tuples for c in t):
+        return
+    l = levels[-1]
+    if l["phys"] in ("int64", "int32", "Int64"):
+        l["cells"] = [(-3 + 2 * i) if i % 2 else (10 - i) for i in range(n)]
+    elif l["phys"] in ("float64", "float32"):
+        l["cells"] = [0.5 * i - 1.0 for i in range(n)]
+    elif l["phys"] == "datetime64[ns]":
+        l["cells"] = list(range(n))
+    else:
+        l["cells"] = [f"k{i}" for i in range(n)]
+    for l in levels[:-1]:
+        l["cells"] = [c if c is not None else (0 if l["phys"] != "object" else "z") for c in l["cells"]]
